@@ -90,7 +90,10 @@ def run(rep, tier, seed, replay=None):
         'result and could only surface as a disagreement with the implementation (audit wave 5c, notes/AUDIT.md C09)',
         'numeric theorems are over exact rationals (XQ); the F32 run of the same definitions is compared bit for bit but no rounding-error '
         'analysis connects the two',
-        'u16 track counts modelled as N (no wrap-around below 65536 tracks)'])
+        'u16 track counts modelled as N (no wrap-around below 65536 tracks)',
+        'K3 (`vh gridalg cases`): Model/GridAlg.v = ALL of compute_grid_layout as a resumption (children answered with the outputs recorded on the '
+        'implementation): the item contribution protocol of grid_item.rs (known dimensions, available space, the three cached contributions), '
+        'the order in which 11.5 / 11.7 ask for them, baselines, re-runs, alignment gutter adjustment, final positioning -- hand model, tied by K only'])
     mine = [k for k in changed if k.startswith('gen_gridtracks:')]
     rc, out, binp, dt = build_harness('release')
     if rc != 0:
@@ -152,6 +155,16 @@ def run(rep, tier, seed, replay=None):
                 rep.cov['stage1_runner_cases'] = len(k1)
         except RuntimeError as ex:
             rep.add_broken('correspondence', 'model evaluation', str(ex)[-1500:])
+    # ---- K3: the WHOLE of compute_grid_layout as a resumption (Model/GridAlg.v) vs the event trace of the implementation on random trees
+    #      (children of every kind, spans, baselines, re-runs): every f32 payload of every child query / stored layout / output.  C09 owns the
+    #      grid arithmetic: here a payload-only disagreement fails the check (C05 / C06 run the same K and fail on structure only).
+    if not replay:
+        from . import _gridalg as GA
+        samples_before = list(rep.cov.get('samples', []))
+        GA.gridalg_k(rep, 'C09', binp, seed + 9090, 2000 if (mine or tier != 'quick') else 500, family=0, payload_is_broken=True)
+        grid_samples = [x for x in rep.cov.get('samples', []) if x not in samples_before]
+    else:
+        grid_samples = []
     hist = {}
     for c in cases:
         for s in shape(c):
@@ -172,7 +185,7 @@ def run(rep, tier, seed, replay=None):
                        'evaluated by the stage-1 runner (a prefix of 150 in the quick tier).  distinct = distinct C vectors; each compares >= 9 numbers.  The 12 corpus cases '
                        '(witnesses of the refuted statements incl. the 11.5 leak, repaired mixed-repeat count) come first.')
     rep.cov['input_distribution'] = hist
-    rep.cov['samples'] = [{'case': c, 'impl': a} for c, a in list(zip(cases, impl))[:2] + list(zip(cases, impl))[-2:]]
+    rep.cov['samples'] = [{'case': c, 'impl': a} for c, a in list(zip(cases, impl))[:2] + list(zip(cases, impl))[-2:]] + grid_samples
     rep.cov['samples'].append({'theorem': 'C09_fr_fill_partial : Forall track_ok tracks -> finite S -> snd (fr_exit tracks S) = true -> '
                                           'x_leb (Fin 1) (final_flex_factor_sum tracks S) = true -> '
                                           'x_leb S (fsum (map base_size (expand_flexible_tracks amin amax (Definite S) items tracks))) = true'})
